@@ -12,4 +12,5 @@ Extraction "../extract/C05/model.ml"
   check_inds check_close is_inverse solve_with cosolve_with
   binv_row_colrep binv_col_colrep binv_times_vec_colrep mult_colrep multT_colrep
   binv_row_rowrep binv_col_rowrep binv_times_vec_rowrep mult_rowrep multT_rowrep
+  binv_col_rowrep_fixed binv_times_vec_rowrep_fixed mult_rowrep_fixed
   mulv vmul veqb norm_inf norm_inf_mat norm_one_mat.
